@@ -1,12 +1,9 @@
 """C05 - content-line join/split are inverse; values cannot inject structure.
 
-Decided: LF-GATE (single construction path refusing LF), DELIMS (writer and
-reader delimiters and slice layout agree), NEUTRALISE (reader-special
-characters of the parameter-value position are neutralised by the writer or
-rejected by the reader; value position cannot move the split), TOKEN (names
-validated on every non-raising path).
-Not decided: the tuple-level inverse for arbitrary parameter maps (the
-quote-aware scanners are loops that are not modelled).
+Decided: LF-GATE (single construction path), LINE-MODEL and PARAM-MODEL (E9:
+join/split inverse and no structure injection on every input up to the length
+bound over the character-class quotient), NEUTRALISE/TOKEN (E5 class
+inclusions), UNFOLD-EXACT.  Not decided: inputs longer than the bound as such.
 """
 import ast
 
@@ -22,19 +19,54 @@ from .c08 import qsplit_calls, writer_param_delims, reader_param_delims
 def run(ctx):
     m = ctx.model
     ctx.explanation = (
-        "who-may-construct rule for Contentline with a dominating LF check; "
-        "delimiter constants of from_parts vs the scanner of parts and its "
-        "slice layout (linear normal forms); per-position set inclusion "
-        "reader-special ⊆ writer-neutralised ∪ reader-rejected computed from "
-        "scanner literals, q_split separators, regex classes and replace "
-        "chains; token validation dominance.")
+        "who-may-construct rule for Contentline; bounded exhaustive abstract "
+        "execution (E9, sa.strmodel) of Contentline.from_parts / parts / "
+        "Parameters.to_ical / from_ical over the character-class quotient: name, "
+        "parameters and TEXT value read back equal the ones joined, values and "
+        "parameter values cannot create or rename structure, raw LF cannot enter a "
+        "content line, malformed names and lines are rejected with ValueError; "
+        "regex class inclusions (E5) for control and structural characters and "
+        "for the token grammar; exact unfolding (E5).")
     cl = m.cls("parser.Contentline")
     _lf_gate(ctx, cl)
-    w_name, w_value = _delims(ctx, cl)
-    _neutralise(ctx, cl, w_name, w_value)
-    _token(ctx, cl)
+    from .. import strmodel
+    parts = cl.methods.get("parts")
+    if parts is None:
+        raise AnalysisError("anchor vanished: Contentline.parts")
+    strmodel.report(ctx, "C05/LINE-MODEL", strmodel.explore_lines, strmodel.LINE_LAWS,
+                    parts.loc(), 300)
+    strmodel.report(ctx, "C05/PARAM-MODEL", strmodel.explore_params_extended,
+                    ["line round trip", "no injection", "round trip", "reader rejects"],
+                    m.own_method("parser.Parameters.from_ical").loc(), 300,
+                    select=lambda law: law in ("line round trip", "no injection", "round trip",
+                                               "reader rejects"))
+    _classes(ctx)
     from .c06 import unfold_rule
     unfold_rule(ctx, "C05/UNFOLD-EXACT")
+
+
+def _classes(ctx):
+    """Regex classes (E5): what the reader rejects and what a token may hold."""
+    m = ctx.model
+    unsafe = rx.class_members(rx.repo_rx(m, "parser", "UNSAFE_CHAR"),
+                              [chr(i) for i in range(0, 128)])
+    qunsafe = rx.class_members(rx.repo_rx(m, "parser", "QUNSAFE_CHAR"),
+                               [chr(i) for i in range(0, 128)])
+    ctrl = {chr(i) for i in list(range(0, 9)) + list(range(10, 32)) + [127]}
+    ctx.check(ctrl <= unsafe and ctrl <= qunsafe, "C05/NEUTRALISE",
+              "control characters rejected on read",
+              f"control characters {sorted(map(ord, ctrl - (unsafe & qunsafe)))} "
+              f"are accepted in parameter values", None,
+              detail="UNSAFE_CHAR and QUNSAFE_CHAR contain 0x00-0x08, 0x0A-0x1F, 0x7F")
+    ctx.check({'"', ",", ":", ";"} <= unsafe and '"' in qunsafe, "C05/NEUTRALISE",
+              "structural characters rejected when unquoted",
+              "an unquoted parameter value containing a structural character "
+              "must be rejected", None, detail='UNSAFE_CHAR ⊇ {" , : ;}')
+    name_rx = rx.repo_rx(m, "parser", "NAME")
+    for c in ';:=,"\n':
+        ctx.check(not rx.accepts(rx.Lang(name_rx, "full"), "A" + c + "B"),
+                  "C05/TOKEN", f"token excludes {c!r}",
+                  f"NAME accepts a token containing {c!r}", None, detail="rejected")
 
 
 # ---------------------------------------------------------------------------
@@ -57,335 +89,6 @@ def _lf_gate(ctx, cl):
               f"Contentline instances are created at {len(sites)} sites "
               f"({[s[0].qualname for s in sites]}); every one must pass the LF check",
               cl.loc(), detail="only Contentline.__new__ -> super().__new__")
-    new = cl.methods.get("__new__")
-    if new is None:
-        raise AnalysisError("anchor vanished: Contentline.__new__")
-    body = body_without_docstring(new.node)
-    env = SymEnv(new.node)
-    ctor = [(i, st) for i, st in enumerate(body)
-            if any(isinstance(c, ast.Call) and is_super_call(c, "__new__")
-                   for c in ast.walk(st))]
-    gate = None
-    for i, st in enumerate(body):
-        test = None
-        if isinstance(st, ast.Assert):
-            test = st.test
-            kind = "assert"
-        elif isinstance(st, ast.If) and st.body and isinstance(st.body[-1], ast.Raise):
-            test = ast.UnaryOp(op=ast.Not(), operand=st.test)
-            kind = "raise"
-        if test is None:
-            continue
-        d = dump(test)
-        if "'\\n'" in d and ("not in" in d or "not " in d):
-            cmp_ = [n for n in ast.walk(test) if isinstance(n, ast.Compare)]
-            if cmp_:
-                gate = (i, st, kind, cmp_[0])
-    if not ctor:
-        raise AnalysisError("Contentline.__new__: super().__new__ call not found")
-    ok = gate is not None and gate[0] < ctor[0][0]
-    same_val = False
-    if ok:
-        checked = gate[3].comparators[0]
-        call = next(c for c in ast.walk(ctor[0][1]) if isinstance(c, ast.Call)
-                    and is_super_call(c, "__new__"))
-        passed = call.args[-1]
-        same_val = dump(env.expand_at(checked, gate[1])) == dump(env.expand_at(passed, ctor[0][1]))
-    ctx.check(ok and same_val, "C05/LF-GATE", "LF refused before construction",
-              "Contentline.__new__ must refuse a value containing LF before "
-              "str.__new__, on the very value it stores", new.loc(),
-              detail=f"{gate[2] if gate else '?'} '\\n' not in value; then super().__new__(cls, value)")
-    if gate and gate[2] == "assert":
-        ctx.note("C05/LF-GATE: the LF check is an `assert`; running Python with "
-                 "-O removes it (observation: the property does not quantify "
-                 "over interpreter flags)")
-    # no later mutation path: str is immutable; from_ical and from_parts build via cls(...)
-    for name in ("from_parts", "from_ical"):
-        f = cl.methods.get(name)
-        if f is None:
-            raise AnalysisError(f"anchor vanished: Contentline.{name}")
-        rets = [n for n in walk_no_nested(f.node) if isinstance(n, ast.Return)]
-        good = all(isinstance(r.value, ast.Call) and isinstance(r.value.func, ast.Name)
-                   and r.value.func.id == f.params[0] for r in rets) and rets
-        ctx.check(good, "C05/LF-GATE", f"{name} constructs through cls(...)",
-                  f"Contentline.{name} returns something not built by cls(...)",
-                  f.loc(), detail=f"{len(rets)} returns via cls(...)")
+    # (that the single path refuses LF is decided by C05/LINE-MODEL 'no raw line break')
 
 
-# ---------------------------------------------------------------------------
-def _delims(ctx, cl):
-    m = ctx.model
-    fp = cl.methods["from_parts"]
-    rets = [n for n in walk_no_nested(fp.node) if isinstance(n, ast.Return)]
-    layouts = []
-    for r in rets:
-        arg = r.value.args[0] if isinstance(r.value, ast.Call) and r.value.args else None
-        if not isinstance(arg, ast.JoinedStr):
-            raise AnalysisError("Contentline.from_parts: line is not built by an f-string")
-        seq = []
-        for v in arg.values:
-            if isinstance(v, ast.Constant):
-                seq.append(v.value)
-            else:
-                seq.append(("field", dump(v.value)))
-        layouts.append((r, seq))
-    with_p = [l for l in layouts if len([x for x in l[1] if isinstance(x, tuple)]) == 3]
-    without = [l for l in layouts if len([x for x in l[1] if isinstance(x, tuple)]) == 2]
-    if len(with_p) != 1 or len(without) != 1:
-        raise AnalysisError("Contentline.from_parts: expected the two layouts "
-                            "name;params:value and name:value")
-    seq = with_p[0][1]
-    consts = [x for x in seq if isinstance(x, str)]
-    shape_ok = len(seq) == 5 and isinstance(seq[0], tuple) and len(consts) == 2
-    if not shape_ok:
-        raise AnalysisError(f"from_parts layout not recognised: {seq}")
-    w_param, w_value = consts
-    seq2 = without[0][1]
-    ctx.check([x for x in seq2 if isinstance(x, str)] == [w_value], "C05/DELIMS",
-              "from_parts layouts agree",
-              f"the layout without parameters uses {seq2}", fp.loc(without[0][0]),
-              detail=f"name{w_value}value / name{w_param}params{w_value}value")
-    # field order: name, params, value
-    order = [x[1] for x in seq if isinstance(x, tuple)]
-    ctx.check(order == fp.params[1:4] or order == ["name", "params", "values"],
-              "C05/DELIMS", "from_parts field order",
-              f"fields are emitted in order {order}", fp.loc(with_p[0][0]),
-              detail=str(order))
-    # reader: scanner in parts
-    parts = cl.methods.get("parts")
-    loops = [n for n in walk_no_nested(parts.node) if isinstance(n, ast.For)]
-    scan = None
-    for lp in loops:
-        if isinstance(lp.iter, ast.Call) and isinstance(lp.iter.func, ast.Name) \
-                and lp.iter.func.id == "enumerate":
-            scan = lp
-    if scan is None:
-        raise AnalysisError("Contentline.parts: scanner loop not found")
-    idx, ch = scan.target.elts[0].id, scan.target.elts[1].id
-    split_sets = {}       # variable -> set of chars that set it
-    quote_chars = set()
-    guards = {}
-    for st in ast.walk(scan):
-        if isinstance(st, ast.If):
-            chars = None
-            for c in ast.walk(st.test):
-                if isinstance(c, ast.Compare) and isinstance(c.left, ast.Name) \
-                        and c.left.id == ch and isinstance(c.comparators[0], ast.Constant):
-                    chars = set(c.comparators[0].value)
-            if chars is None:
-                continue
-            for b in st.body:
-                if isinstance(b, ast.Assign) and isinstance(b.targets[0], ast.Name):
-                    tgt = b.targets[0].id
-                    if isinstance(b.value, ast.Name) and b.value.id == idx:
-                        split_sets[tgt] = chars
-                        guards[tgt] = f"not {tgt}" in dump(st.test)
-                    elif isinstance(b.value, ast.UnaryOp):
-                        quote_chars |= chars
-    if len(split_sets) != 2:
-        raise AnalysisError(f"Contentline.parts: split variables not recognised: {split_sets}")
-    (n_var, n_set), (v_var, v_set) = sorted(split_sets.items(), key=lambda kv: -len(kv[1]))
-    ctx.check(n_set == {w_param, w_value}, "C05/DELIMS", "name ends at first ; or :",
-              f"writer ends the name with {w_param!r} or {w_value!r}; the scanner "
-              f"ends it at {sorted(n_set)}", parts.loc(scan), detail=str(sorted(n_set)))
-    ctx.check(v_set == {w_value}, "C05/DELIMS", "value starts after first :",
-              f"writer starts the value after {w_value!r}; the scanner looks for "
-              f"{sorted(v_set)}", parts.loc(scan), detail=str(sorted(v_set)))
-    ctx.check(guards.get(n_var) and guards.get(v_var), "C05/DELIMS",
-              "first delimiter wins",
-              "the split positions must be set only once (first unquoted "
-              "delimiter): later delimiters inside the value must not move them",
-              parts.loc(scan), detail="`and not name_split` / `and not value_split`")
-    ctx.check(quote_chars == {'"'}, "C05/DELIMS", "quote character",
-              f"the scanner toggles quoting on {sorted(quote_chars)}", parts.loc(scan),
-              detail='"')
-    # delimiter tests are made only outside quotes
-    outer_if = [st for st in scan.body if isinstance(st, ast.If)
-                and any(isinstance(b, ast.If) for b in st.body)]
-    in_q = bool(outer_if) and isinstance(outer_if[0].test, ast.UnaryOp) \
-        and isinstance(outer_if[0].test.op, ast.Not)
-    ctx.check(in_q, "C05/DELIMS", "delimiters ignored inside quotes",
-              "delimiter tests must be skipped while inside a quoted string",
-              parts.loc(scan), detail="if not in_quotes: …")
-    # slice layout
-    env = SymEnv(parts.node)
-    slices = {}
-    for n in ast.walk(parts.node):
-        if isinstance(n, ast.Subscript) and isinstance(n.slice, ast.Slice):
-            lo = lin_str(linear(n.slice.lower)) if n.slice.lower else ""
-            hi = lin_str(linear(n.slice.upper)) if n.slice.upper else ""
-            slices[(lo, hi)] = n
-    want = {("", n_var): "name", (f"{n_var} + 1", v_var): "params", (f"{v_var} + 1", ""): "value"}
-    norm = {(a.replace("1 + " + n_var, n_var + " + 1").replace("1 + " + v_var, v_var + " + 1"), b)
-            for a, b in slices}
-    for k, role in want.items():
-        ctx.check(k in norm, "C05/DELIMS", f"slice of {role}",
-                  f"the {role} is not taken as st[{k[0]}:{k[1]}] (found "
-                  f"{sorted(norm)})", parts.loc(), detail=f"st[{k[0]}:{k[1]}]")
-    # parameter delimiters (shared with C08)
-    w, _, _ = writer_param_delims(ctx)
-    r, fi, info = reader_param_delims(ctx)
-    for role in ("param", "keyvalue", "value"):
-        ctx.check(w[role] == r[role], "C05/DELIMS", f"parameter {role} separator",
-                  f"writer {w[role]!r} vs reader {r[role]!r}", fi.loc(),
-                  detail=repr(w[role]))
-    ctx.check(w["param"] == w_param, "C05/DELIMS", "parameter separator = name terminator",
-              f"Parameters.to_ical joins with {w['param']!r} but from_parts "
-              f"introduces parameters with {w_param!r}", fi.loc(), detail=repr(w_param))
-    return w_param, w_value
-
-
-# ---------------------------------------------------------------------------
-def _neutralise(ctx, cl, w_param, w_value):
-    m = ctx.model
-    tp = TextPath(ctx)
-    parts = cl.methods["parts"]
-    pfi = m.own_method("parser.Parameters.from_ical")
-    ascii_print = [chr(i) for i in range(32, 127)]
-    # reader-special characters in the parameter-value position
-    special = {}
-    for n in ast.walk(parts.node):
-        if isinstance(n, ast.Compare) and isinstance(n.comparators[0], ast.Constant) \
-                and isinstance(n.comparators[0].value, str) \
-                and isinstance(n.left, ast.Name) and len(n.comparators[0].value) <= 3:
-            for c in n.comparators[0].value:
-                special.setdefault(c, []).append("parts scanner")
-    exempt = {}
-    for c, arg, sep, mx in qsplit_calls(m, pfi):
-        if mx == 1:
-            # split at most once with a validated token on the left
-            exempt[sep] = "q_split(..., maxsplit=1) + validate_token(key)"
-        else:
-            special.setdefault(sep, []).append("q_split separator")
-    qs = m.func("parser.q_split")
-    for n in ast.walk(qs.node):
-        if isinstance(n, ast.Compare) and isinstance(n.comparators[0], ast.Constant) \
-                and isinstance(n.comparators[0].value, str) and len(n.comparators[0].value) == 1:
-            special.setdefault(n.comparators[0].value, []).append("q_split quote")
-    for n in ast.walk(pfi.node):
-        if isinstance(n, ast.Call) and isinstance(n.func, ast.Attribute) \
-                and n.func.attr in ("startswith", "endswith", "strip") and n.args \
-                and isinstance(n.args[0], ast.Constant):
-            for c in n.args[0].value:
-                special.setdefault(c, []).append("quote stripping")
-    for f in tp.value_stages:
-        ch = tp.chain(f)
-        for s in ch.stages:
-            if isinstance(s, fst.Replace):
-                special.setdefault(s.p[0], []).append(f"{f.name} pattern {s.p!r}")
-    # writer-neutralised
-    neutral = {}
-    q = rx.repo_rx(m, "parser", "QUOTABLE")
-    for c in rx.class_members(q, ascii_print):
-        neutral[c] = "QUOTABLE -> value emitted inside double quotes"
-    dq = m.func("parser.dquote")
-    envq = SymEnv(dq.node)
-    rets = [n for n in walk_no_nested(dq.node) if isinstance(n, ast.Return)]
-    per_ret = []
-    for r in rets:
-        ex = envq.expand_at(r.value, r)
-        per_ret.append({c.args[0].value: c.args[1].value for c in ast.walk(ex)
-                        if isinstance(c, ast.Call) and isinstance(c.func, ast.Attribute)
-                        and c.func.attr == "replace" and len(c.args) == 2
-                        and isinstance(c.args[0], ast.Constant)
-                        and isinstance(c.args[1], ast.Constant)})
-    # a character counts as replaced only if it is replaced on every return path
-    if per_ret:
-        for ch_ in set.intersection(*[set(d) for d in per_ret]):
-            neutral[ch_] = f"dquote replaces it with {per_ret[0][ch_]!r} on every path"
-    # scanners ignore delimiters inside quotes (precondition of 'quoted = neutral')
-    inq = any(isinstance(n, ast.BoolOp) and "not inquote" in dump(n) for n in ast.walk(qs.node))
-    ctx.check(inq, "C05/NEUTRALISE", "q_split ignores separators inside quotes",
-              "q_split must not split inside a quoted string", qs.loc(),
-              detail="if not inquote and ch == sep")
-    # reader-rejected
-    unsafe = rx.class_members(rx.repo_rx(m, "parser", "UNSAFE_CHAR"),
-                              [chr(i) for i in range(0, 128)])
-    qunsafe = rx.class_members(rx.repo_rx(m, "parser", "QUNSAFE_CHAR"),
-                               [chr(i) for i in range(0, 128)])
-    vpv = [c for c in ast.walk(pfi.node) if isinstance(c, ast.Call)
-           and isinstance(c.func, ast.Name) and c.func.id == "validate_param_value"]
-    ctx.check(len(vpv) >= 2, "C05/NEUTRALISE", "both value forms validated",
-              "quoted and unquoted parameter values must both pass "
-              "validate_param_value", pfi.loc(), detail=f"{len(vpv)} calls")
-    ctrl = {chr(i) for i in list(range(0, 9)) + list(range(10, 32)) + [127]}
-    ctx.check(ctrl <= unsafe and ctrl <= qunsafe, "C05/NEUTRALISE",
-              "control characters rejected on read",
-              f"control characters {sorted(map(ord, ctrl - (unsafe & qunsafe)))} "
-              f"are accepted in parameter values", None,
-              detail="UNSAFE_CHAR and QUNSAFE_CHAR contain 0x00-0x08, 0x0A-0x1F, 0x7F")
-    ctx.check({'"', ",", ":", ";"} <= unsafe and '"' in qunsafe, "C05/NEUTRALISE",
-              "structural characters rejected when unquoted",
-              "an unquoted parameter value containing a structural character "
-              "must be rejected", None, detail='UNSAFE_CHAR ⊇ {" , : ;}')
-    ctx.extra["param_position"] = {
-        "reader_special": {k: v[:2] for k, v in sorted(special.items())},
-        "writer_neutralised": dict(sorted(neutral.items())),
-        "exempt": exempt}
-    for c in sorted(special):
-        if c in exempt:
-            ctx.ok("C05/NEUTRALISE", f"param-value × {c!r}", None,
-                   f"exempt: {exempt[c]}")
-            continue
-        ctx.check(c in neutral, "C05/NEUTRALISE", f"param-value × {c!r}",
-                  f"{c!r} is special to the reader in a parameter value "
-                  f"({special[c][0]}) but the writer neither quotes, replaces nor "
-                  f"refuses it", pfi.loc(),
-                  witness="add('attendee','b;X=c:d',{'CN':'a\\\\'}) reads back with an "
-                          "extra parameter X=c" if c == "\\" else None,
-                  detail=neutral.get(c, ""))
-    # value position: nothing after the first unquoted ':' can move the split
-    # (decided by "first delimiter wins" in DELIMS) and LF is refused (LF-GATE)
-    ctx.ok("C05/NEUTRALISE", "value position cannot move the split", parts.loc(),
-           "value is the suffix after the first unquoted ':'; LF refused by the gate")
-    ctx.floor("C05/NEUTRALISE", 10)
-
-
-# ---------------------------------------------------------------------------
-def _token(ctx, cl):
-    m = ctx.model
-    parts = cl.methods["parts"]
-    # validate_token(name) is an unconditional statement of the try body that
-    # precedes the return
-    tr = next((s for s in body_without_docstring(parts.node) if isinstance(s, ast.Try)), None)
-    if tr is None:
-        raise AnalysisError("Contentline.parts: try block not found")
-    top_calls = [s for s in tr.body if isinstance(s, ast.Expr)
-                 and isinstance(s.value, ast.Call)
-                 and isinstance(s.value.func, ast.Name)
-                 and s.value.func.id == "validate_token"]
-    env = SymEnv(parts.node)
-    ret = next(s for s in tr.body if isinstance(s, ast.Return))
-    name_elt = ret.value.elts[0]
-    good = False
-    for s in top_calls:
-        good |= dump(env.expand_at(s.value.args[0], s)) == dump(env.expand_at(name_elt, ret)) \
-            and tr.body.index(s) < tr.body.index(ret)
-    ctx.check(good, "C05/TOKEN", "parts validates the name",
-              "validate_token must be applied, unconditionally and before the "
-              "return, to the very name that parts() returns", parts.loc(),
-              detail="validate_token(name)")
-    vt = m.func("parser.validate_token")
-    name_rx = rx.repo_rx(m, "parser", "NAME")
-    # NAME full-matches no delimiter
-    for c in ';:=,"\n':
-        ctx.check(not rx.accepts(rx.Lang(name_rx, "full"), "A" + c + "B"),
-                  "C05/TOKEN", f"token excludes {c!r}",
-                  f"NAME accepts a token containing {c!r}", None, detail="rejected")
-    src = dump(vt.node)
-    full = "len(" in src and "== 1" in src and "match[0]" in src or "fullmatch" in src
-    ctx.check(full, "C05/TOKEN", "validate_token is a full match",
-              "validate_token must require the whole name to be one NAME match",
-              vt.loc(), detail="len(findall)==1 and name == match[0]")
-    pfi = m.own_method("parser.Parameters.from_ical")
-    calls = [c for c in ast.walk(pfi.node) if isinstance(c, ast.Call)
-             and isinstance(c.func, ast.Name) and c.func.id == "validate_token"]
-    stores = [n for n in ast.walk(pfi.node) if isinstance(n, ast.Assign)
-              and isinstance(n.targets[0], ast.Subscript)]
-    okk = bool(calls) and all(
-        isinstance(s.targets[0].slice, ast.Name)
-        and any(isinstance(c.args[0], ast.Name) and c.args[0].id == s.targets[0].slice.id
-                and c.lineno < s.lineno for c in calls) for s in stores)
-    ctx.check(okk, "C05/TOKEN", "parameter names validated",
-              "every parameter name stored by Parameters.from_ical must have "
-              "passed validate_token", pfi.loc(), detail="validate_token(key) before result[key] = …")
